@@ -250,7 +250,10 @@ def run(run, tier, loadcfg):
                        'Floor/Linear state updates and the blend polynomial l + (r-l)x. Positions floor(P_n)/fractions follow by induction (Appendix C.4); float drift is not decided.')
     run.assumptions = ['amplitude abstraction: sample conversions are the identity on the real amplitude (C01/C02)', 'floating-point rounding ignored in polynomial identities']
     for cfg in ['std-debug'] + (['nostd'] if tier == 'thorough' else []):
-        cx = Ctx(loadcfg(cfg))
+        fx_ = loadcfg(cfg, optional=(cfg == 'nostd'))
+        if fx_ is None:
+            continue
+        cx = Ctx(fx_)
         check_converter_next(run, cx, cfg)
         check_ratio_api(run, cx, cfg)
         check_mulhz(run, cx, cfg)
